@@ -16,9 +16,22 @@
 
 package schema
 
+import "github.com/cloudwego/eino/internal/verifhook"
+
 const maxSelectNum = 5
 
 func receiveN[T any](chosenList []int, ss []*stream[T]) (int, *streamItem[T], bool) {
+	if verifhook.On {
+		if order := verifhook.Poll(len(chosenList)); order != nil {
+			for _, k := range order {
+				select {
+				case item, ok := <-ss[chosenList[k]].items:
+					return chosenList[k], &item, ok
+				default:
+				}
+			}
+		}
+	}
 	return []func(chosenList []int, ss []*stream[T]) (index int, item *streamItem[T], ok bool){
 		nil,
 		func(chosenList []int, ss []*stream[T]) (int, *streamItem[T], bool) {
